@@ -248,6 +248,9 @@ func cmdDrive(args []string) {
 			}
 		}
 	}
+	if params["table"] != "" {
+		preloadFile(params["table"])
+	}
 	cases := d(*seed, *n, params)
 	lines := make([][]byte, len(cases))
 	for i, c := range cases {
